@@ -60,6 +60,8 @@ def schedules(r, k):
     out.append({"start_order": rev, "finish_order": p2, "worker_of": [0] * k, "name": "reversed_on_one_worker"})
     out.append({"start_order": ident, "finish_order": ident, "worker_of": ident, "name": "other_surroundings",
                 "ambient": {"offset": 1.7e9, "step": 0.37, "cwd": "b", "env": {"TZ": "Pacific/Kiritimati", "LANG": "tr_TR.UTF-8", "PHYCLONE_SIM": "1"}}})
+    out.append({"start_order": ident, "finish_order": ident, "worker_of": ident, "name": "arguments_pickled_late", "late_pickle": True})
+    out.append({"start_order": p1, "finish_order": rev, "worker_of": [0] * k, "name": "arguments_pickled_late_one_worker", "late_pickle": True})
     out.append({"start_order": ident, "finish_order": ident, "worker_of": [0] * k, "name": "one_core", "cores": 1})
     out.append({"start_order": p1, "finish_order": ident, "worker_of": [i % 2 for i in range(k)], "name": "two_cores", "cores": 2})
     return out
@@ -263,7 +265,7 @@ def run(ctx):
     ctx.cov["distinct_nontrivial"] = len(sig) if len(sig) >= 2 else len(refs)
     ctx.cov["option_sets"] = len(seeds)
     ctx.cov["rule"] = ("per seeded option set (1-4 chains, 2-8 iterations, all proposals, outliers on/off, concentration update on/off): canonical execution "
-                       "+ 7 perturbed schedules (start reversed, finish reversed, all chains on one simulated worker with warm memo caches, the OS reporting 1 or 2 available cores, another wall clock / working directory / environment, seeded "
+                       "+ 10 perturbed schedules (arguments pickled at submit or only when the worker starts, start reversed, finish reversed, all chains on one simulated worker with warm memo caches, the OS reporting 1 or 2 available cores, another wall clock / working directory / environment, seeded "
                        "orders and worker assignment) + executions in fresh interpreters under other PYTHONHASHSEED values; one evaluation = one "
                        "simulated execution; per chain the sequence of (canonical tree, labels, alpha, iter) must be identical and log_p_one equal "
                        "to 1e-9 relative; distinct = distinct (chains, entries per chain) shapes")
